@@ -24,7 +24,15 @@ def kind(dtype):
 
 
 def wide(dtype):
-    return {'f': np.float64, 'c': np.complex128, 'i': np.int64, 'u': np.int64}[kind(dtype)]
+    """Wide dtype of the reference computation: float64 / complex128 / int64, or the (native
+    byte order) dtype itself when it is wider than those (longdouble, clongdouble), so that the
+    reference is never LESS precise than the space."""
+    dtype = np.dtype(dtype)
+    k = kind(dtype)
+    w = np.dtype({'f': np.float64, 'c': np.complex128, 'i': np.int64, 'u': np.int64}[k])
+    if k in 'fc' and dtype.itemsize > w.itemsize:
+        return dtype.newbyteorder('=').type
+    return w.type
 
 
 def triple_index(size, phase=0, nreg=3):
@@ -126,7 +134,7 @@ def poison_fill(dtype, size):
     k = kind(dtype)
     a = np.zeros(size, dtype=dtype)
     if k in 'fc':
-        big = float(np.finfo(dtype).max) / 4
+        big = np.finfo(dtype).max / 4       # in the precision of the dtype: finite for longdouble
         a[0::2] = np.nan
         a[1::2] = big
     elif k == 'i':
